@@ -198,6 +198,7 @@ func init() {
 			{Plugin: "sites", Func: "mobius.(*ThreadedNewsYAML).DeleteArticle", Kinds: []string{"site", "post"}},
 			{Plugin: "sites", Func: "mobius.(*ThreadedNewsYAML).CreateGrouping", Kinds: []string{"site", "post"}},
 			{Plugin: "yamltags", Opts: "hotline.ThreadedNews hotline.NewsCategoryListData15 hotline.NewsArtData"},
+			{Func: "hotline.(*Field).DecodeNewsPath"},
 			{Plugin: "sites", Func: "mobius.(*ThreadedNewsYAML).DeleteNewsItem", Kinds: []string{"site", "guarded", "inv-init"}},
 			{Plugin: "sites", Func: "mobius.(*ThreadedNewsYAML).GetArticle", Kinds: []string{"guarded", "inv-init"}},
 			{Plugin: "sites", Func: "mobius.(*ThreadedNewsYAML).ListArticles", Kinds: []string{"site", "guarded", "inv-init"}},
@@ -252,6 +253,7 @@ func init() {
 		Items: []Item{
 			{Plugin: "sites", Func: "hotline.UploadHandler", Kinds: siteKinds},
 			{Plugin: "sites", Func: "hotline.receiveFile", Kinds: siteKinds},
+			{Plugin: "sites", Func: "hotline.(*flattenedFileObject).ReadFrom", Kinds: []string{"site"}},
 			{Plugin: "handler-contract", Func: "mobius.HandleUploadFile", Kinds: []string{"site"}},
 			{Plugin: "sites", Func: "hotline.(*OSFileStore).OpenFile", Kinds: []string{"site"}},
 			{Plugin: "sites", Func: "hotline.(*OSFileStore).Rename", Kinds: []string{"site"}},
@@ -350,8 +352,12 @@ func init() {
 			Item{Plugin: "sites", Func: "hotline.(*ClientConn).Disconnect", Kinds: []string{"site", "post", "inv-step", "inv-init"}},
 			Item{Plugin: "sites", Func: "hotline.(*ClientConn).SendAll", Kinds: []string{"site", "inv-step", "inv-init"}},
 			Item{Plugin: "sites", Func: "hotline.(*Server).SendAll", Kinds: []string{"site", "inv-step", "inv-init"}},
-			Item{Plugin: "sites", Func: "hotline.(*ClientConn).handleTransaction", Kinds: []string{"site", "inv-step", "inv-init", "guarded"}}),
+			Item{Plugin: "sites", Func: "hotline.(*ClientConn).handleTransaction", Kinds: []string{"site", "inv-step", "inv-init", "guarded"}},
+			// only a connection that logged in (and was given an ID) ever unregisters an ID or is
+			// announced as having left
+			Item{Plugin: "gate", Func: "hotline.(*Server).handleNewConnection"}),
 		Decided: []string{
+			"handleNewConnection: Disconnect -- which removes the connection's ID from the registry and tells everyone that user left -- is registered and reached only after a successful login (a refused connection still carries the zero ID, which a live user can hold after the counter wrapped)",
 			"Disconnect removes exactly the leaving client from the registry before the user-left notices are built, sends one notice (type 302, field 103 = its ID) per remaining client, and closes the connection on every path; SendAll (both) builds one transaction of the given type per registered client, addressed to it, and sends each; handleTransaction forwards every transaction the handler returns and resets the idle timer under the mutex",
 			"NotifyOthers (user joined / changed / left notices): every entry of the client list whose ID differs from the sender's gets one copy, and no one else does (per-iteration reach obligation)",
 			"HandleSetClientUserInfo: with the options field present the automatic reply is cleared when its bit is clear and set to the request's text when it is set",
@@ -366,7 +372,8 @@ func init() {
 			{Plugin: "sites", Func: "mobius.NewYAMLAccountManager", Kinds: []string{"site", "inv-step", "inv-init"}},
 			{Func: "hotline.NewAccount"},
 			// an edit stores (in the table and, marshalled, on disk) exactly the bitmap it was given
-			{Func: "mobius.(*YAMLAccountManager).Update"}, {Func: "mobius.(*YAMLAccountManager).Create"}},
+			{Func: "mobius.(*YAMLAccountManager).Update"}, {Func: "mobius.(*YAMLAccountManager).Create"},
+			{Plugin: "handler-contract", Func: "mobius.HandleSetUser", Kinds: []string{"site"}}},
 		Decided: []string{
 			"YAMLAccountManager.Update / Create: on success the table entry under the (new) login carries the given access bitmap unchanged -- all 64 bits -- and it is that account which is marshalled and written atomically",
 			"the account loader (including the migration of legacy-format files) never sets a privilege bit itself: what a file grants is what UnmarshalYAML decoded",
@@ -399,7 +406,7 @@ func init() {
 			"hotline.(*Transaction).Read", "hotline.(*Transaction).Size", "hotline.(*Transaction).Write", "hotline.(*FilePath).Write",
 			"hotline.(*Field).Read", "hotline.NewField", "hotline.(*Field).Write", "hotline.FieldScanner",
 			"hotline.transactionScanner", "hotline.(*Field).DecodeInt", "hotline.EncodeString",
-			"hotline.(*User).Read", "hotline.(*User).Write",
+			"hotline.(*User).Read", "hotline.(*User).Write", "hotline.(*Account).Read",
 			"hotline.(*FileNameWithInfo).Read", "hotline.(*FileNameWithInfo).Write",
 			"hotline.(*FlatFileInformationFork).Read", "hotline.(*FlatFileInformationFork).DataSize", "hotline.(*FlatFileInformationFork).Size",
 			"hotline.(*FlatFileInformationFork).ReadNameSize", "hotline.(*FlatFileInformationFork).SetComment",
